@@ -7,6 +7,7 @@ import NgoVerif.Proofs.C05sem
 import NgoVerif.Proofs.C10multi
 import NgoVerif.Proofs.C20dom
 import NgoVerif.Proofs.C08impl
+import NgoVerif.Proofs.C08anon
 /-!
 # Driver ops that evaluate the *side conditions of the end-to-end theorems* on what the real passes did
 
@@ -25,6 +26,9 @@ import NgoVerif.Proofs.C08impl
 * `(sem_implied_cond <pre> <rule before> <rule after> <post> <rule with body [p literal]> <rule with body [q literal]>)` →
   `(ok <impliedCheck> <same literals>)`: the hypotheses of `C08_remove_implied_typed` for ONE deletion `cleanup` made:
   `q` deleted from the rule because of `p`, `pre`/`post` the other statements at that moment.
+* `(sem_anon_cond <rule before> <rule after> <rule with body [p literal]> <rule with body [q literal]> ("v" …))` →
+  `(ok <anonCheck> <same literals>)`: the hypotheses of `C08_remove_weaker_copy_strongeq` for one deletion of a literal of the
+  SAME predicate (`p(X), p(_)`), `("v" …)` the variables of `q` that occur nowhere else (the renamed-apart `_`).
 * `(sem_okstm <stm>)` → `(ok <okBody>)`: the hypothesis of the `_partial` theorems about `expand_comparisons`.
 * `(sem_unused_cond <prog> "n" k)` → `(ok <every statement stmOk> <Unused n k prog>)`: the hypothesis of
   `C09_removal_sound/complete` for the program `unused` removed the rules of `n/k` from.
@@ -149,6 +153,15 @@ def handleSem : Sexp → Option Sexp
         .list [.atom "ok", ofBool (Proofs.C08impl.impliedCheck R), ofBool same, ofBool (R.src.all Proofs.C08impl.okStm),
                ofBool (blitMem R.pLit R.body), ofBool (R.src.all (Proofs.C08impl.ruleImplies R.pn R.pargs R.qn R.qargs))]
       | _, _, _, _, _, _ => .list [.atom "unsupported", .str "rules / literals"]
+  | .list [.atom "sem_anon_cond", o, u, pr, qr, .list fs] =>
+    some <| match Stm.ofSexp o, Stm.ofSexp u, Stm.ofSexp pr, Stm.ofSexp qr,
+        fs.mapM (fun x => match x with | .str v => some v | _ => none) with
+      | some (.rule l c h bb), some (.rule _ _ _ ab), some (.rule _ _ _ [.lit (.pos, .sym (.fn pn sargs false))]),
+        some (.rule _ _ _ [.lit (.pos, .sym (.fn qn targs false))]), some F =>
+        let A : Proofs.C08anon.Anon :=
+          { line := l, col := c, head := h, body := ab, pn := pn, sargs := sargs, targs := targs, F := F }
+        .list [.atom "ok", ofBool (pn == qn && Proofs.C08anon.anonCheck A), ofBool (Proofs.C08impl.sameLits bb (A.qLit :: ab))]
+      | _, _, _, _, _ => .list [.atom "unsupported", .str "rules / literals"]
   | _ => none
 
 end NgoVerif
